@@ -466,6 +466,75 @@ func TestC10(t *testing.T) {
 			},
 			descr: func(k interface{}) string { return fmt.Sprintf("%T(%v)", k, k) }})
 	})
+	run("chan", func(rt *rapid.T) {
+		chans := []chan int{make(chan int), make(chan int, 1), make(chan int)}
+		runKeyCase(rt, keyType[chan int]{name: "chan", pool: func() []chan int {
+			return []chan int{chans[0], chans[1], chans[2], chans[0], nil}
+		}, descr: func(c chan int) string { return fmt.Sprintf("%p", c) }})
+	})
+	run("unsafepointer", func(rt *rapid.T) {
+		cells := make([]int64, 4)
+		runKeyCase(rt, keyType[unsafe.Pointer]{name: "unsafepointer", pool: func() []unsafe.Pointer {
+			return []unsafe.Pointer{unsafe.Pointer(&cells[0]), unsafe.Pointer(&cells[1]), nil, unsafe.Pointer(&cells[0]), unsafe.Pointer(&cells[3])}
+		}, mutate: func(i int) { cells[i%4] += int64(i) + 1 }, descr: func(p unsafe.Pointer) string { return fmt.Sprintf("%p", p) }})
+	})
+	run("namedstring", func(rt *rapid.T) {
+		type name string
+		runKeyCase(rt, keyType[name]{name: "namedstring", pool: func() []name {
+			return []name{"", name(cloneStr("")), "a", name(cloneStr("a")), "aa", "b", name(strings.Repeat("z", 40)), name(cloneStr(strings.Repeat("z", 40)))}
+		}})
+	})
+	run("interfacearray", func(rt *rapid.T) {
+		runKeyCase(rt, keyType[[2]interface{}]{name: "interfacearray", pool: func() [][2]interface{} {
+			return [][2]interface{}{{}, {nil, 1}, {1, nil}, {"a", 1}, {cloneStr("a"), 1}, {0.0, negZero}, {negZero, 0.0}, {&cellsI[0], nilIntP}, {&cellsI[0], nilIntP}}
+		}, mutate: func(i int) { cellsI[0] += i + 1 }})
+	})
+	run("emptystruct", func(rt *rapid.T) {
+		runKeyCase(rt, keyType[struct{}]{name: "emptystruct", pool: func() []struct{} { return []struct{}{{}, {}} }})
+	})
+	run("structpointer", func(rt *rapid.T) {
+		objs := []*padded{{A: 1}, {A: 1}, {A: 2}}
+		runKeyCase(rt, keyType[*padded]{name: "structpointer", pool: func() []*padded {
+			return []*padded{objs[0], objs[1], objs[2], objs[0], nil}
+		}, mutate: func(i int) { objs[i%3].B += int64(i) + 1; objs[i%3].D += "x" }, descr: func(p *padded) string { return fmt.Sprintf("%p", p) }})
+	})
+	run("uint8", func(rt *rapid.T) {
+		runKeyCase(rt, keyType[uint8]{name: "uint8", pool: func() []uint8 { return []uint8{0, 1, 127, 128, 255} }})
+	})
+	run("int64", func(rt *rapid.T) {
+		runKeyCase(rt, keyType[int64]{name: "int64", pool: func() []int64 { return []int64{0, 1, -1, 1 << 40, -(1 << 40), math.MaxInt64, math.MinInt64} }})
+	})
+	run("embeddedstruct", func(rt *rapid.T) {
+		type inner struct {
+			X uint8
+			Y float32
+		}
+		type outer struct {
+			inner
+			Z [2]inner
+			W bool
+		}
+		mk := func(x uint8, y float32, w bool) outer {
+			// built through a dirtied buffer so that padding bytes are garbage
+			buf := make([]byte, unsafe.Sizeof(outer{})+16)
+			for i := range buf {
+				buf[i] = 0xA5
+			}
+			off := uintptr(0)
+			for (uintptr(unsafe.Pointer(&buf[0]))+off)%8 != 0 {
+				off++
+			}
+			o := (*outer)(unsafe.Pointer(&buf[off]))
+			o.X, o.Y, o.W = x, y, w
+			o.Z[0].X, o.Z[0].Y, o.Z[1].X, o.Z[1].Y = x+1, y, x+2, -y
+			return *o
+		}
+		runKeyCase(rt, keyType[outer]{name: "embeddedstruct", pool: func() []outer {
+			a := outer{inner: inner{1, 0}, W: true}
+			a.Z[0], a.Z[1] = inner{2, 0}, inner{3, negZero32}
+			return []outer{{}, a, mk(1, 0, true), mk(1, negZero32, true), mk(2, 1.5, false), mk(2, 1.5, false), mk(2, 1.5, true)}
+		}})
+	})
 	run("nonemptyinterface", func(rt *rapid.T) {
 		runKeyCase(rt, keyType[stringer]{name: "nonemptyinterface", pool: func() []stringer {
 			return []stringer{nil, valStr{"a"}, valStr{cloneStr("a")}, valStr{"b"}, ptrStrs[0], ptrStrs[1], ptrStrs[2], ptrStrs[0], (*ptrStr)(nil)}
